@@ -440,7 +440,7 @@ func TestVerifC17(t *testing.T) {
 	r.Bounds["max_length"] = n
 	r.Bounds["alphabet"] = string(c17Alphabet)
 	r.Bounds["e2e_max_length"] = 3
-	r.Extra["rule"] = "all strings of length <= n over the 20-symbol alphabet, ValidateRefGlob and ValidatePathGlob each compared with the reference validator (accept/reject), ref=>path implication, column oracle; all strings <= 3 additionally through Linter.Lint in 7 layouts (the same string under ref and path keys of one, two and three events, both orders; lists with empty / null / non-scalar and valid elements around the pattern; push, pull_request, pull_request_target, merge_group, workflow_run); class = (validator, reference verdict, reference reason); non-trivial = invalid by the reference"
+	r.Extra["rule"] = "all strings of length <= n over the 20-symbol alphabet, ValidateRefGlob and ValidatePathGlob each compared with the reference validator (accept/reject), ref=>path implication, column oracle; all strings <= 3 (also followed by / preceded by a ${{ }} placeholder, which is ordinary text there) additionally through Linter.Lint in 7 layouts (the same string under ref and path keys of one, two and three events, both orders; lists with empty / null / non-scalar and valid elements around the pattern; push, pull_request, pull_request_target, merge_group, workflow_run); class = (validator, reference verdict, reference reason); non-trivial = invalid by the reference"
 	r.Extra["assumptions"] = []string{"characters outside the alphabet are represented by a, b (ordinary), space/~ (ref-forbidden), \\x01 and TAB (control characters below and next to the line breaks), é (non-ASCII), U+FEFF (a character the scanner library treats specially at the head of its input)", "appendix B don't-care classes are not compared"}
 
 	if raw := vReplayInput(); raw != nil {
@@ -486,6 +486,10 @@ func TestVerifC17(t *testing.T) {
 			c17Check(r, pat)
 			if l <= 3 {
 				c17E2E(r, pat)
+				// filters are not expression templates: ${{ }} in them is ordinary pattern text
+				// and does not exempt the value from validation
+				c17E2E(r, pat+"${{1}}")
+				c17E2E(r, "${{ github.sha }}/"+pat)
 			}
 			if idx%200003 == 0 {
 				v1, w1 := c17Ref(pat, true)
